@@ -55,12 +55,14 @@ def _pure(doc, path):
         note(mutated_by="exists()")
         return False
     if n > 0:
+        m = 0
         try:
             for _ in proc.get_nodes(path, mustexist=False):
-                pass
+                m += 1
         except YAMLPathException:
             pass
-        if snapshot(doc) != before:
+        # the path "already exists" when the optional-match query had nothing to create
+        if m == n and snapshot(doc) != before:
             note(mutated_by="get_nodes(mustexist=False) on an existing path")
             return False
     return True
